@@ -12,7 +12,7 @@ for d in sorted(glob.glob(os.path.join(VERIF, "seeded", "C*"))):
         continue
     prop = m.get("property") or sid[:3]
     det, inp = m.get("detected"), m.get("with_failing_input")
-    verdict = "failing input" if det and inp else ("no-failing-input-found" if det else ("MISSED" if det is False else "?"))
+    verdict = "failing input" if det and inp else ("no-failing-input-found" if det else ("MISSED" if det is False else "not re-run in the third session (reported with a failing input at the end of the second, DESIGN 13.2)"))
     rows.append((sid, prop, m.get("check_result", "?"), verdict, (m.get("summary") or "")[:110].replace("|", "/").replace("\n", " ")))
 with open(os.path.join(VERIF, "seeded", "RESULTS.md"), "w") as f:
     f.write("Outcome of `./check <property>` (quick tier) against every kept seeded change, as last recorded in seeded/<id>/meta.json.\n\n")
